@@ -67,6 +67,11 @@ CHECKS = {
         text="TLA+ model of the signer's scanner (one-block buffer + split function) fed by a reader with arbitrarily short reads and of the read-back arithmetic (hash slots, short sizes, per-file groups), model-checked for all file sizes 0..10 units: emitted blocks are [BS]^k ++ tail, one empty block per empty file, and the read-back inverts it. Generated builds x every compression setting of the signature stream x short-reading source pools: the diff-time signature is read back by the real ReadSignature and compared block by block with the real stand-alone signer and an independent recomputation (TLC evaluates the rolling checksum of tiny files itself); ComputeHashInfo must partition the list; a pristine copy must validate with no wound and pass fail-fast validation.",
         note="MD5 digests compared byte-wise; the independent recomputation is the harness' own rolling-checksum + crypto/md5.",
         technique="TLA+ model checking (TLC) + trace validation of real signatures and validations against the TLA+ block arithmetic"),
+    "C05": dict(
+        level="model_checking", ref="DESIGN.md §4 C05",
+        text="TLA+ model of the wounds the validator emits for one file (per-block verdicts in wound mode, wound aggregation, size-mismatch wound, flush at close) model-checked for every (signed, actual) over two symbols with 2-unit blocks: coverage of every differing offset below the signed length, length mismatch and any deviation reported, well-formed ranges, no false wound. The same kind of pairs at unit scale (1 unit = 32 KiB) goes through the real Validate with a wounds file and in fail-fast mode: TLC decides on the real wounds and compares them with the model's (drift); generated builds with damage sequences (flips at block edges, weak-hash twins, truncation incl. at block boundaries, extension within/across/beyond blocks, emptied, deleted, content where an empty file is expected, kind swaps, retargeted symlinks, combinations, damage only in the last file) are validated the same way with ground truth by comparison with the signed build.",
+        note="ground truth by byte comparison in the harness; hash collisions other than crafted weak-hash twins not modelled; subtree-hiding kind swaps belong to C06.",
+        technique="TLA+ model checking (TLC) + trace validation of real validator runs against the TLA+ wound model and property"),
 }
 
 NOT_YET = "check not built yet in this round (planned: DESIGN.md §4); not a claim that the technique cannot apply"
